@@ -33,7 +33,10 @@ HARNESS = {
 
 def _env(extra):
     e = dict(os.environ)
-    e["PYTHONPATH"] = VERIF + os.pathsep + e.get("PYTHONPATH", "")
+    # VP_REPO (development aid, used by bin/seedtest-wt): import osaca from another checkout than
+    # /repo; the registered check commands never set it
+    alt = e.get("VP_REPO")
+    e["PYTHONPATH"] = (alt + os.pathsep if alt else "") + VERIF + os.pathsep + e.get("PYTHONPATH", "")
     e["PYTHONHASHSEED"] = "0"
     e["OSACA_VERIF"] = "1"
     e.update(extra)
